@@ -92,7 +92,72 @@ M("c13-sort-tail", "C13", "sort: second half keeps a stale tail (tail of first h
 M("c13-pop-empty", "C13", "pop_front emptiness check removed (the repaired defect)",
   (SL, "    if (sl->h.n == NULL) {\n        /* the list is empty */\n        return NULL;\n    }\n", ""))
 
+# ----------------------------------------------------------------- C03
+HS = "src/hash.c"
+M("c03-no-clean-old", "C03", "lookup does not clean the key's old bucket",
+  (HS, "        cstl_clean_bucket(h, bk);\n        cstl_clean_bucket(h, _bk);", "        cstl_clean_bucket(h, _bk);"))
+M("c03-use-old-bucket", "C03", "keyed access keeps using the old bucket while pending",
+  (HS, "        __cstl_hash_rehash(h, 1);\n\n        bk = _bk;", "        __cstl_hash_rehash(h, 1);"))
+M("c03-no-flip", "C03", "resize does not flip the clean bit",
+  (HS, "            h->bucket.cst = !h->bucket.cst;\n", ""))
+M("c03-no-finish-before-resize", "C03", "resize does not finish the pending rehash first",
+  (HS, "            cstl_hash_rehash(h);\n\n            h->bucket.cst = !h->bucket.cst;", "            h->bucket.cst = !h->bucket.cst;"))
+M("c03-erase-splice", "C03", "erase splices one node too late",
+  (HS, "        *hep.n = (*hep.n)->next;\n        h->count--;", "        if ((*hep.n)->next != NULL) { hep.n = &(*hep.n)->next; }\n        *hep.n = (*hep.n)->next;\n        h->count--;"))
+M("c03-shrink-no-finish", "C03", "shrink_to_fit without forcing completion",
+  (HS, "    if (h->bucket.capacity > count) {\n        cstl_hash_rehash(h);\n        __cstl_hash_set_capacity(h, h->bucket.count);", "    if (h->bucket.capacity > count) {\n        __cstl_hash_set_capacity(h, count);"))
+M("c03-size-drift", "C03", "erase of a non-member still decrements the size when the bucket is non-empty",
+  (HS, "    if (cstl_hash_bucket_foreach(\n            h, bk->n, cstl_hash_erase_visit, &hep) != 0) {", "    if (cstl_hash_bucket_foreach(\n            h, bk->n, cstl_hash_erase_visit, &hep) != 0 || (bk->n != NULL && bk->n->next != NULL && (hep.n = &bk->n->next->next, *hep.n != NULL))) {"))
+M("c03-find-first-only", "C03", "find stops offering after the first rejected duplicate",
+  (HS, "        if (hfp->visit == NULL || hfp->visit(e, hfp->p) != 0) {\n            hfp->e = e;\n            return 1;\n        }",
+   "        if (hfp->visit == NULL || hfp->visit(e, hfp->p) != 0) {\n            hfp->e = e;\n        }\n        return 1;"))
+M("c03-setcap-commit", "C03", "set_capacity records the capacity even when realloc fails",
+  (HS, "    if (at != NULL) {\n        h->bucket.at = at;\n        h->bucket.capacity = sz;\n    }", "    if (at != NULL) {\n        h->bucket.at = at;\n    }\n    h->bucket.capacity = sz;"), also=["C16"])
+# ----------------------------------------------------------------- C04
+M("c04-foreach-no-finish", "C04", "foreach no longer forces completion (callback may erase mid-rehash)",
+  (HS, "    cstl_hash_rehash(h);\n    return __cstl_hash_foreach(h, visit, p);", "    return __cstl_hash_foreach(h, visit, p);"))
+M("c04-next-after-visit", "C04", "chain walk reads next after the visit",
+  (HS, "    HASH_LIST_FOREACH(n, n, nn) {\n        if ((res = visit(__cstl_hash_element(h, n), p)) != 0) {\n            break;\n        }\n    }",
+   "    while (n != NULL) {\n        res = visit(__cstl_hash_element(h, n), p);\n        nn = n->next;\n        if (res != 0) {\n            break;\n        }\n        n = nn;\n    }"))
+M("c04-clear-no-free", "C04", "clear does not free the bucket array",
+  (HS, "    free(h->bucket.at);\n    h->bucket.at = NULL;", "    h->bucket.at = NULL;"))
+M("c04-walk-old-count", "C04", "enumeration walk bounded by the current count again (the repaired defect)",
+  (HS, "    if (h->bucket.rh.hash != NULL && h->bucket.rh.count > count) {\n        count = h->bucket.rh.count;\n    }", ""))
+M("c04-clear-keeps-hash", "C04", "clear keeps the hash function (the repaired defect)",
+  (HS, "    h->bucket.capacity = 0;\n    h->bucket.hash = NULL;", "    h->bucket.capacity = 0;"))
+M("c04-clear-skips-last", "C04", "clear does not call back for elements in the last bucket",
+  (HS, "        __cstl_hash_foreach(h, cstl_hash_clear_visit, &hcp);", "        if (h->bucket.count > 1) { h->bucket.count--; }\n        __cstl_hash_foreach(h, cstl_hash_clear_visit, &hcp);"))
+# ----------------------------------------------------------------- C17
+M("c17-no-check-pending", "C17", "range check skipped for lookups under the pending geometry",
+  (HS, "    const size_t i = hash(k, count);\n    if (i >= count) {", "    const size_t i = hash(k, count);\n    if (i >= count && count == h->bucket.count) {"))
+M("c17-check-gt", "C17", "range check uses > instead of >=",
+  (HS, "    if (i >= count) {\n        abort();", "    if (i > count) {\n        abort();"))
+M("c17-deref-before-check", "C17", "bucket is dereferenced before the range check (abort only for empty-looking slots)",
+  (HS, "    if (i >= count) {\n        abort();\n    }\n    return &h->bucket.at[i];", "    if (i >= count && h->bucket.at[i].n == NULL) {\n        abort();\n    }\n    return &h->bucket.at[i];"))
+M("c17-clamp", "C17", "out-of-range results are clamped instead of aborting",
+  (HS, "    const size_t i = hash(k, count);\n    if (i >= count) {\n        abort();\n    }", "    size_t i = hash(k, count);\n    if (i >= count) {\n        i = count - 1;\n    }"))
+# ----------------------------------------------------------------- C19
+M("c19-sweep-zero", "C19", "keyed access sweeps 0 extra buckets",
+  (HS, "        __cstl_hash_rehash(h, 1);\n\n        bk = _bk;", "        __cstl_hash_rehash(h, 0);\n\n        bk = _bk;"))
+M("c19-eager", "C19", "the first keyed access rehashes the whole table",
+  (HS, "        __cstl_hash_rehash(h, 1);\n\n        bk = _bk;", "        __cstl_hash_rehash(h, SIZE_MAX);\n\n        bk = _bk;"))
+M("c19-load-current", "C19", "load uses the current count while pending",
+  ("include/cstl/hash.h", "    if (h->bucket.rh.hash != NULL) {\n        count = h->bucket.rh.count;\n    }\n    return (float)h->count / count;", "    return (float)h->count / count;"))
+M("c19-compare-current", "C19", "resize compares with the current geometry again (the repaired defect)",
+  (HS, "        if (h->bucket.rh.hash != NULL) {\n            cur_count = h->bucket.rh.count;\n            cur_hash = h->bucket.rh.hash;\n        }\n", ""))
+M("c19-adopt-early", "C19", "sweep adopts the new geometry one bucket early",
+  (HS, "    if (h->bucket.rh.clean >= h->bucket.count) {\n        /* everything is clean; mark the rehash as complete */",
+   "    if (h->bucket.rh.clean + 1 >= h->bucket.count) {\n        /* everything is clean; mark the rehash as complete */"), also=["C03"])
+M("c19-keep-fn", "C19", "resize with a new function at the same size keeps the old function",
+  (HS, "            if (hash != NULL) {\n                h->bucket.rh.hash = hash;\n            } else if", "            if (hash != NULL && count != cur_count) {\n                h->bucket.rh.hash = hash;\n            } else if"))
+
 # ------------------------------------------------------- negative controls
+N("neg-hash-new-buckets-dirty", ["C03", "C04", "C19"], "newly added buckets are initialised dirty",
+  (HS, "                h->bucket.at[i].cst = h->bucket.cst;\n            }", "                h->bucket.at[i].cst = !h->bucket.cst;\n            }"))
+N("neg-hash-load-double", ["C19"], "load computed in double precision",
+  ("include/cstl/hash.h", "    return (float)h->count / count;", "    return (float)((double)h->count / (double)count);"))
+N("neg-hash-sweep-two", ["C03", "C04", "C19"], "keyed access sweeps two extra buckets instead of one",
+  (HS, "        __cstl_hash_rehash(h, 1);\n\n        bk = _bk;", "        __cstl_hash_rehash(h, 2);\n\n        bk = _bk;"))
 N("neg-bintree-equal-left", ["C01", "C02", "C08"], "bintree insert sends equal keys left",
   (BT, "        if (__cstl_bintree_cmp(bt, bn, bp) < 0) {\n            bc = &bp->l;", "        if (__cstl_bintree_cmp(bt, bn, bp) <= 0) {\n            bc = &bp->l;"))
 N("neg-bintree-ignore-hint", ["C01", "C02", "C08"], "the insert hint is ignored",
